@@ -169,6 +169,7 @@ class WebSocketServer(websocket.WebSocketServerProtocol):
         if "side" not in msg:
             raise Error("bind requires 'side'")
         self._app = self.factory.server.get_app(msg["appid"])
+        self._app.connection_bound()
         self._side = msg["side"]
         client_version = msg.get("client_version", (None, None))
         # e.g. ("python", "0.xyz") . <=0.10.5 did not send client_version
@@ -301,6 +302,8 @@ class WebSocketServer(websocket.WebSocketServerProtocol):
         #log.msg("onClose", self, self._mailbox, self._listening)
         if self._mailbox and self._listening:
             self._mailbox.remove_listener(self)
+        if self._app:
+            self._app.connection_lost()
 
 
 class WebSocketServerFactory(websocket.WebSocketServerFactory):
